@@ -240,6 +240,9 @@ def run(repo: Repo, rep: Report, tier: str) -> None:
     check_timer_run_state(repo, rep, "artim-run-state")
     check_connect_failure(repo, rep, "connect-failure")
     from ..delegate import delegate
+    rep.rule("closed-not-invalid", "a connection that closes in the middle of a PDU is Evt17 (transport closed), not Evt19 (invalid PDU) - C02's no-extra-rejection and C03's short-is-closed")
+    delegate(repo, rep, tier, "C02", ("no-extra-rejection",), "closed-not-invalid", "a PDU cut short by the peer closing the connection is classified as an invalid PDU: Sta6 + Evt19 -> AA-8 (A-ABORT PDU sent, ARTIM started, Sta13) instead of Sta6 + Evt17 -> AA-4 (A-P-ABORT indication, Sta1)")
+    delegate(repo, rep, tier, "C03", ("short-is-closed",), "closed-not-invalid", "a short or failed read must be reported as Evt17: with Evt19 the machine runs AA-1 / AA-8 instead of AA-4 / AA-5")
     rep.rule("invalid-pdu", "bytes that are not a well-formed PDU fail the decode (Evt19), they are not skipped (C01's evaluation of the item generators)")
     delegate(repo, rep, tier, "C01", ("decoder-complete",), "invalid-pdu", "a malformed A-ASSOCIATE-RQ / -AC is decoded as if it were well-formed: the machine takes Evt6 / Evt3 (the association is accepted / established) where PS3.8 prescribes Evt19 -> AA-1 / AA-8 (A-ABORT)")
 
@@ -386,6 +389,16 @@ def _check_abort_to_primitive(repo: Repo, rep: Report):
     rep.need(user is not None, "pdu.A_ABORT_RQ.to_primitive: source test not recognised")
     rep.check(user == "A_ABORT", "action-effects", "pdu.A_ABORT_RQ.to_primitive", "source == 0 -> " + str(user), "AA-3: a service-user abort (source 0) must be indicated as A-ABORT", mod=mod, node=fn)
     rep.check(prov == "A_P_ABORT", "action-effects", "pdu.A_ABORT_RQ.to_primitive", "source == 2 -> " + str(prov), "AA-3: a provider abort (source 2) must be indicated as A-P-ABORT", mod=mod, node=fn)
+    # the reserved / undefined sources (1, 3 .. 255): such a PDU is invalid (Evt19: AA-1 / AA-8). It is recognised as
+    # invalid by the A-ABORT primitive's abort_source setter, which refuses everything but 0 and 2 - so those sources
+    # must be converted into that primitive, not into a provider abort (whose reason setter accepts 0..6)
+    pp = repo.mod("pdu_primitives")
+    aci = pp.classes.get("A_ABORT")
+    st_ = aci.setters.get("abort_source") if aci is not None else None
+    validates = st_ is not None and any(isinstance(x, ast.Raise) for x in ast.walk(st_))
+    for s_ in (1, 3, 255):
+        got = for_source(s_)
+        rep.check(got == "A_ABORT" and validates, "action-effects", "pdu.A_ABORT_RQ.to_primitive", f"source == {s_} -> {got}", f"an A-ABORT PDU with the undefined source {s_} is an invalid PDU (Evt19 -> AA-1 / AA-8: A-ABORT sent): it is only recognised as such by A_ABORT.abort_source's range check, so it must be converted to that primitive; converted to {got} it is indicated to the user as an abort (Evt16 -> AA-2 / AA-3) instead", mod=mod, node=fn)
 
 
 def _check_dispatch(repo: Repo, rep: Report):
